@@ -374,6 +374,24 @@ theorem dropHandle_ok {sz : Nat} {s : St} {o : Nat}
       subst hl''
       exact ⟨l, rfl, rfl, rfl, rfl⟩
 
+theorem le_sum_of_mem : ∀ (l : List Nat) (x : Nat), x ∈ l → x ≤ l.sum
+  | [], _, h => by cases h
+  | y :: ys, x, h => by
+    simp only [List.mem_cons] at h
+    simp only [List.sum_cons]
+    rcases h with h | h
+    · omega
+    · have := le_sum_of_mem ys x h; omega
+
+/-- no list is longer than the number of live tokens -/
+theorem len_le_live {sz : Nat} {s : St} {p : Option Nat} {a : Nat} {l : RawList}
+    (inv : InvP sz s p) (hl : s.getAlloc a = some l) : l.len ≤ s.live := by
+  rw [inv.live]
+  have ⟨hlt, he⟩ := getAlloc_some_lt hl
+  apply le_sum_of_mem
+  apply List.mem_map.mpr
+  exact ⟨some l, List.mem_of_getElem? he, rfl⟩
+
 theorem sum_eq_zero_of_all : ∀ (l : List Nat), (∀ x ∈ l, x = 0) → l.sum = 0
   | [], _ => rfl
   | x :: xs, h => by
